@@ -13,7 +13,7 @@ Status summary (see `C17_full` at the end). The LIVE model is the repaired worke
                                bf_pipe_refines, bf_counter_inv, bf_no_early_exit, bf_exactly_once,
                                bf_error_cancels, bf_return_joins_workers, bf_return_no_goroutine_left,
                                bf_live_ctx_error_recorded,
-                               bf_measure (every step decreases the bound), bf_terminates,
+                               bf_measure (every step decreases the bound), bf_terminates, bf_reaches_return,
                                limit_skip_window, range_partition_exact
   about the OLD protocol     : bf_terminates_refuted_old (witness of finding F14: the hang that was
                                reproduced on the code before the repair), bf_terminates_partial_old,
@@ -152,6 +152,30 @@ theorem bf_terminates (cfg : Cfg) (hn : 1 ≤ cfg.n) (hf : cfg.fixed = true) (s 
     ∃ a s', Act.isEnv a = false ∧ s.step cfg a = some s' ∧ s'.μ cfg < s.μ cfg := by
   obtain ⟨a, s', he, hs⟩ := progress hn hf (reach_inv h) (reach_inv2 h) hnr
   exact ⟨a, s', he, hs, measure_step hs⟩
+
+/-- Termination, packaged: from EVERY reachable state of the live protocol (whatever has happened so far:
+success path, a driver / visitor / memory-limit error at any call, a cancellation at any point) there
+is a continuation using no environment action that ends with BreadthFirst returned; by `bf_measure`
+every run is finite, so every maximal run is such a continuation. -/
+theorem bf_reaches_return (cfg : Cfg) (hn : 1 ≤ cfg.n) (hf : cfg.fixed = true) :
+    ∀ s, BF.Reach cfg s → ∃ acts s', acts.all (fun a => !Act.isEnv a) = true ∧ BF.run cfg s acts = some s' ∧
+      ∃ z, s'.coord = .ret z := by
+  have key : ∀ m s, s.μ cfg = m → BF.Reach cfg s → ∃ acts s', acts.all (fun a => !Act.isEnv a) = true ∧
+      BF.run cfg s acts = some s' ∧ ∃ z, s'.coord = .ret z := by
+    intro m
+    induction m using Nat.strong_induction_on with
+    | _ m ih =>
+      intro s hm hr
+      by_cases hret : ∃ z, s.coord = .ret z
+      · exact ⟨[], s, rfl, rfl, hret⟩
+      · have hnr : ∀ z, s.coord ≠ .ret z := fun z hz => hret ⟨z, hz⟩
+        obtain ⟨a, s1, he, hs, hlt⟩ := bf_terminates cfg hn hf s hr hnr
+        obtain ⟨acts, s', hall, hrun, hz⟩ := ih (s1.μ cfg) (by omega) s1 rfl (BF.Reach.step hr hs)
+        refine ⟨a :: acts, s', ?_, ?_, hz⟩
+        · simp [List.all_cons, he, hall]
+        · simp [BF.run, hs, hrun]
+  intro s hr
+  exact key _ s rfl hr
 
 /-- The protocol BEFORE the repair (`cfg.fixed` arbitrary, in particular `false`) terminates along
 schedules in which the driver never returns an error that `errors.Is` context.Canceled /
